@@ -1170,6 +1170,30 @@ def Encoder_EncodeBytes.body (fuel : Nat) : Encoder_EncodeBytes.St → Go.Out En
 def Encoder_EncodeBytes (fuel : Nat) (e_p : Bytes) (e_offset : BitVec 64) (tag : BitVec 64) (v : Bytes) : Go.Out Encoder_EncodeBytes.St Encoder_EncodeBytes.R :=
   Encoder_EncodeBytes.body fuel { e_p := e_p, e_offset := e_offset, tag := tag, v := v }
 
+/-! ### `Encoder.EncodePackedBool` (/repo/encoder.go:117:1) -/
+
+structure Encoder_EncodePackedBool.St where
+  e_p : Bytes
+  e_offset : BitVec 64
+  tag : BitVec 64
+  vs : List Bool
+  v : Bool := false
+
+abbrev Encoder_EncodePackedBool.R := Unit
+
+/-- the body of `Encoder_EncodePackedBool`, statement by statement -/
+def Encoder_EncodePackedBool.body (fuel : Nat) : Encoder_EncodePackedBool.St → Go.Out Encoder_EncodePackedBool.St Encoder_EncodePackedBool.R :=
+  (Go.seq (Go.seq (fun s => if ((BitVec.ofNat 64 s.vs.length) == 0#64) then (fun s => .ret () s) s else Go.skip s)
+    (Go.seq (fun s => if ((s.e_offset).toNat ≤ s.e_p.length) then match (EncodeTag fuel (s.e_p.drop (s.e_offset).toNat) s.tag 2#64) with | .ret r c => .next { s with e_p := s.e_p.take (s.e_offset).toNat ++ c.dest, e_offset := (s.e_offset + r) } | .next _ => .panic | .panic => .panic | .diverge => .diverge else .panic)
+    (Go.seq (fun s => if ((s.e_offset).toNat ≤ s.e_p.length) then match (EncodeVarint fuel (s.e_p.drop (s.e_offset).toNat) (BitVec.ofNat 64 s.vs.length)) with | .ret r c => .next { s with e_p := s.e_p.take (s.e_offset).toNat ++ c.dest, e_offset := (s.e_offset + r) } | .next _ => .panic | .panic => .panic | .diverge => .diverge else .panic)
+    (Go.forEach (fun s => s.vs) (fun s x => { s with v := x })
+    (Go.seq (fun s => if s.v then (fun s => if ((s.e_offset).toNat < s.e_p.length) then .next { s with e_p := Go.wr s.e_p (s.e_offset).toNat 1#8 } else .panic) s else (fun s => if ((s.e_offset).toNat < s.e_p.length) then .next { s with e_p := Go.wr s.e_p (s.e_offset).toNat 0#8 } else .panic) s)
+    (fun s => .next { s with e_offset := (s.e_offset + 1#64) }))))))
+    (fun s => .ret () s))
+
+def Encoder_EncodePackedBool (fuel : Nat) (e_p : Bytes) (e_offset : BitVec 64) (tag : BitVec 64) (vs : List Bool) : Go.Out Encoder_EncodePackedBool.St Encoder_EncodePackedBool.R :=
+  Encoder_EncodePackedBool.body fuel { e_p := e_p, e_offset := e_offset, tag := tag, vs := vs }
+
 /-! ### `Encoder.EncodePackedUInt64` (/repo/encoder.go:198:1) -/
 
 structure Encoder_EncodePackedUInt64.St where
